@@ -86,7 +86,7 @@ def h_pool(ctx, sexes, hapx, naming, with_anti, mismatch=False, anti_lo=-10, rev
     except RuntimeError as exc:
         raised = str(exc)
     except Exception as exc:
-        ctx.claim(False, f"combine_probes raised {type(exc).__name__}", info=str(exc)[:200])
+        claim_raised(ctx, "combine_probes", exc)
         return
     finally:
         reference.read_cna = orig_read
@@ -185,7 +185,7 @@ def h_infer(ctx, with_anti, empty_anti=False):
     try:
         reference.do_reference([f"s{k}.targetcoverage.cnn" for k in range(ns)], [f"s{k}.antitargetcoverage.cnn" for k in range(ns)] if with_anti else None, None, False, None, None, False, False, False)
     except Exception as exc:
-        ctx.claim(False, f"do_reference raised {type(exc).__name__}", info=str(exc)[:200])
+        claim_raised(ctx, "do_reference", exc)
         return
     finally:
         CNA.guess_xx, reference.read_cna, reference.combine_probes, reference.warn_bad_bins = real_guess, real_read, real_combine, real_warn
